@@ -99,17 +99,18 @@ def _file_hash(p):
         return "missing"
 
 
-def extract(tu, sels, recs=(), extra=(), roots=None, overlay=None):
+def extract(tu, sels, recs=(), extra=(), roots=None, overlay=None, calls=()):
     """Run pikafacts on one TU (cached by TU + flags + selectors + content of every dependency)."""
     flags, _ = base_flags()
     flags = list(flags) + list(EXTRA) + list(extra)
     # llvm::Regex is POSIX ERE: no \w / \d
     sels = [s_.replace("\\w", "[A-Za-z0-9_]").replace("\\d", "[0-9]") for s_ in sels]
     recs = [s_.replace("\\w", "[A-Za-z0-9_]").replace("\\d", "[0-9]") for s_ in recs]
+    calls = [s_.replace("\\w", "[A-Za-z0-9_]").replace("\\d", "[0-9]") for s_ in calls]
     roots = roots or [REPO + "/", VERIF + "/drivers/"]
     os.makedirs(CACHE, exist_ok=True)
     tool_h = _file_hash(PIKAFACTS)
-    key = _sha(json.dumps([tu, flags, sorted(sels), sorted(recs), roots, tool_h,
+    key = _sha(json.dumps([tu, flags, sorted(sels), sorted(recs), roots, tool_h, sorted(calls),
                            sorted((k, _file_hash(v)) for k, v in (overlay or {}).items())]))
     out = os.path.join(CACHE, key + ".json")
     dep = os.path.join(CACHE, key + ".deps")
@@ -131,6 +132,8 @@ def extract(tu, sels, recs=(), extra=(), roots=None, overlay=None):
         cmd += ["--sel", s]
     for s in recs:
         cmd += ["--rec", s]
+    for s in calls:
+        cmd += ["--calls", s]
     for k, v in (overlay or {}).items():
         cmd += ["--overlay", "%s=%s" % (k, v)]
     cmd += [tu, "--"] + flags
